@@ -188,6 +188,18 @@ def _relation(tx):
     return rel
 
 
+def _declared_call_invs(spec, cname):
+    cs = {c["name"]: c for c in spec.get("classes", ())}
+    if cname not in cs:
+        return None
+    out = set()
+    while cname:
+        c = cs[cname]
+        out |= {"%s/inv%d" % (cname, i) for i, inv in enumerate(c.get("invs", ())) if inv.get("check_on", "CALL") in ("CALL", "ALL")}
+        cname = c.get("base")
+    return out
+
+
 def judge(run, engine, only_actor=None):
     violations = []
     shapes = set()
@@ -257,6 +269,22 @@ def judge(run, engine, only_actor=None):
                         "detail": {"call": tx.xid, "unit": tx.unit, "obj": tx.obj, "caller_stack": [list(f) for f in tx.stack_at_call], "verdict": v},
                     }
                 )
+            if must_i and obs_i and v[0] == "ret" and tx.obj is not None:
+                # a checked call that returned has had every on-call invariant of the object's own class evaluated - no more, no fewer
+                # (the list belongs to the class of the instance, not to the class that happens to define the method)
+                o = run.world.objects.get(tx.obj)
+                if o is not None:
+                    cname = next((n for n, k in run.world.classes.items() if k is type(o)), None)
+                    declared = _declared_call_invs(run.world.spec, cname)
+                    seen_i = {e[3] for e in run.log if e[2] == "inv" and e[4] == tx.xid and e[5] == tx.obj}
+                    if declared is not None and seen_i != declared:
+                        violations.append(
+                            {
+                                "rule": "C10.R2",
+                                "classifier": "%s:invariants-of-another-class:%s" % (engine, "missing" if declared - seen_i else "foreign"),
+                                "detail": {"call": tx.xid, "unit": tx.unit, "obj": tx.obj, "class": cname, "declared": sorted(declared), "evaluated": sorted(seen_i)},
+                            }
+                        )
         # -- R3: an unchecked call still runs its body once and hands its result back
         if not must and not observed and v[0] == "ret":
             if tx.bodies != 1 or v[1] not in ("own", "none"):
